@@ -66,7 +66,8 @@ func (s *Service) OnRequest(c service.Conn, payload []byte) (service.Response, b
 	c.AddLink(request.Name, channel)
 
 	// If an auto-subscribe was requested and the key has read permissions, subscribe
-	if _, key, allowed := s.auth.Authorize(channel, security.AllowRead); allowed && request.Subscribe {
+	// Keys which are supposed to be extended should not be used for subscribing
+	if _, key, allowed := s.auth.Authorize(channel, security.AllowRead); allowed && request.Subscribe && !key.HasPermission(security.AllowExtend) {
 		ssid := message.NewSsid(key.Contract(), channel.Query)
 		s.pubsub.Subscribe(c, &event.Subscription{
 			Conn:    c.LocalID(),
